@@ -33,9 +33,9 @@
   Not proved (exercised by the correspondence and the error-bound oracle only):
     the same bound outside `DocC`: lines with a breakdown, foreign-currency items,
     rate × quantity charges, percentages with an explicit base, fixed amounts finer
-    than currency + 2 decimals, included taxes (`prices_include`), retained taxes and
-    surcharges, the `currency` rule, and the per-line presented figures and due dates
-    (`out.lines`, `out.dues`).
+    than currency + 2 decimals, included taxes (`prices_include`), tax surcharges, the `currency` rule; of the presented rows only the line totals, the
+    advances and the due dates are covered (`calc_lines_spec`, `calc_payment_rows_spec`),
+    not the line sums / discount rows nor the rows of the tax summary.
 -/
 import GoblVerif.Spec.C01
 import GoblVerif.Generated.CalcFacts
@@ -818,6 +818,56 @@ example : DocC retEx payDoc ∧
     ((calculate exactOps payDoc).toOption.bind (·.totals)).map (fun t => (t.advances, t.due)) =
       some (some ⟨1102, 2⟩, some ⟨2570, 2⟩) :=
   ⟨payDoc_class, by decide, by decide, by decide, by decide⟩
+
+/-! ## the presented rows -/
+
+/-- every line of a document of the class `DocA` is shown (`Shows`: unchanged, or rounded half away
+from zero once, to the decimals of the item price) from a working line total that carries at least
+currency + 2 decimals and is within `lineW l` half-units of the working precision of the exact
+rational line total -/
+theorem calc_lines_spec (d : Doc) (out : Out) (hd : DocA d) (hcalc : calculate exactOps d = .ok out) :
+    List.Forall₂ (fun l lo => ∃ w q a, lo.total = some a ∧ Shows a w ∧ d.c + 2 ≤ w.exp ∧
+        lineTotalQ d.cur d.rates l = some q ∧ |w.toRat - q| ≤ (lineW l : ℚ) * halfUlp (d.c + 2))
+      d.lines out.lines :=
+  lines_shown d out hd hcalc
+
+/-- the advance rows and the due-date rows (`DueOk`: a non-zero percentage ≤ 100 % of the payable
+amount, or a fixed amount) of a document of the class `DocC` with a payment section: each amount is
+the half-away rounding at currency precision of a working value (for a percentage: the product at the
+working precision, the second rounding point of that row) within `1 + twtW` half-units of the exact
+percentage of the exact total with tax / payable amount -/
+theorem calc_payment_rows_spec (ret : String → Bool) (d : Doc) (out : Out) (t : Totals) (hd : DocC ret d)
+    (hp : d.hasPayment = true) (hdues : ∀ x ∈ d.dues, DueOk x)
+    (hcalc : calculate exactOps d = .ok out) (ht : out.totals = some t) :
+    List.Forall₂ (fun a ao => ∃ w : Amount, presents d.c ao.amount w.toRat ∧
+        |w.toRat - advQ (exactQ d).totalWithTax a| ≤ (1 + (twtW d (groupsT t) : ℚ)) * halfUlp (d.c + 2))
+      d.advances out.advances ∧
+    List.Forall₂ (fun x xo => ∃ w : Amount, presents d.c xo.amount w.toRat ∧
+        |w.toRat - dueQ (exactQ d).payable x| ≤ (1 + (twtW d (groupsT t) : ℚ)) * halfUlp (d.c + 2))
+      d.dues out.dues :=
+  payment_rows_shown d out t hd hp hdues hcalc ht
+
+/-- `payDoc` with two due dates: 40 % of the payable amount and a fixed 10.00 -/
+def dueDoc : Doc :=
+  { payDoc with dues := [{ percent := some ⟨⟨40, 2⟩⟩, amount := ⟨0, 0⟩ }, { percent := none, amount := ⟨1000, 2⟩ }] }
+
+/-- non-vacuity: the classes hold; line totals 27.263125 and 3.9164 shown with the three decimals
+of the prices, the advance 11.024140125 as 11.02, the due dates 40 % × 36.72713375 = 14.6908535 as
+14.69 and 10.00 -/
+example : DocC retEx dueDoc ∧ dueDoc.hasPayment = true ∧ (∀ x ∈ dueDoc.dues, DueOk x) ∧
+    (calculate exactOps dueDoc).toOption.map (fun o => o.lines.map (·.total)) =
+      some [some ⟨27263, 3⟩, some ⟨3916, 3⟩] ∧
+    (calculate exactOps dueDoc).toOption.map (fun o => (o.advances.map (·.amount), o.dues.map (·.amount))) =
+      some ([⟨1102, 2⟩], [⟨1469, 2⟩, ⟨1000, 2⟩]) := by
+  have h := payDoc_class
+  refine ⟨⟨⟨⟨h.tax.base.rule, h.tax.base.ne, h.tax.base.lines, h.tax.base.discounts, h.tax.base.charges⟩,
+    h.tax.inc, h.tax.lineTaxes, h.tax.discTaxes, h.tax.chTaxes⟩, h.rounding, h.advances⟩, rfl, ?_,
+    by decide, by decide⟩
+  intro x hx
+  simp only [dueDoc, List.mem_cons, List.mem_nil_iff, or_false] at hx
+  rcases hx with rfl | rfl
+  · exact Or.inl ⟨_, rfl, rfl, by norm_num [Amount.toRat, pow10]⟩
+  · exact Or.inr (Or.inl rfl)
 
 /-! ## pinned source shapes (regenerated facts; tools/pin_calc_expect.py) -/
 
